@@ -168,21 +168,46 @@ def load_prop(prop_id):
 def check(prop_id, tier, seed, workers=None):
     t0 = time.time()
     mod = load_prop(prop_id)
-    cases = mod.cases(tier, seed)
     ncpu = os.cpu_count() or 4
     W = workers or int(os.environ.get("XMC_WORKERS", str(min(16, ncpu))))
-    W = max(1, min(W, len(cases)))
-    results = [None] * len(cases)
-    if W == 1:
-        _init_worker(mod.__name__, seed)
-        for i, c in enumerate(cases):
-            results[i] = run_one(mod, c, seed)
+
+    def run_batch(batch, pool):
+        res = [None] * len(batch)
+        if pool is None:
+            for i, c in enumerate(batch):
+                res[i] = run_one(mod, c, seed)
+        else:
+            chunk = max(1, min(16, len(batch) // (W * 8)))
+            for i, r in pool.imap_unordered(_work, list(enumerate(batch)), chunksize=chunk):
+                res[i] = r
+        return res
+
+    pool = None
+    if W > 1:
+        pool = mp.get_context("fork").Pool(W, initializer=_init_worker, initargs=(mod.__name__, seed))
     else:
-        ctx = mp.get_context("fork")
-        with ctx.Pool(W, initializer=_init_worker, initargs=(mod.__name__, seed)) as pool:
-            chunk = max(1, min(16, len(cases) // (W * 8)))
-            for i, r in pool.imap_unordered(_work, list(enumerate(cases)), chunksize=chunk):
-                results[i] = r
+        _init_worker(mod.__name__, seed)
+    try:
+        if hasattr(mod, "rounds"):
+            # breadth-first exploration in rounds: the module yields a frontier, receives its results, yields the next
+            cases, results = [], []
+            gen = mod.rounds(tier, seed)
+            batch = next(gen)
+            while True:
+                res = run_batch(batch, pool)
+                cases.extend(batch)
+                results.extend(res)
+                try:
+                    batch = gen.send(res)
+                except StopIteration:
+                    break
+        else:
+            cases = mod.cases(tier, seed)
+            results = run_batch(cases, pool)
+    finally:
+        if pool is not None:
+            pool.terminate()
+            pool.join()
 
     extra_cov = {}
     extra_viol = []
